@@ -155,10 +155,19 @@ def _file_checks(ss, tr, sc, d):
             ss2.dae.ts.unpack(warn_empty=False)
             t2 = np.asarray(ss2.dae.ts.t)
             v2 = np.hstack([ss2.dae.ts.x, ss2.dae.ts.y]) if len(t2) else np.zeros((0, 0))
-            ok = bool(r2) and len(t2) == len(rows) and bool(np.max(np.abs(t2 - exp_t)) <= 1e-10)
+            # a csv file cannot tell apart two rows whose time stamps differ by an ulp (a last step of 3e-17 s that lands
+            # exactly on tf): such rows count as one (the later one) when the replay is compared
+            keep = [k for k in range(len(exp_t)) if k == len(exp_t) - 1 or exp_t[k + 1] - exp_t[k] > 1e-10]
+            exp_tk = exp_t[keep]
+            ok = bool(r2) and len(t2) == len(keep) and bool(np.max(np.abs(t2 - exp_tk)) <= 1e-10)
             if ok:
-                ref = exp[:, 1:]
-                ok = v2.shape == ref.shape and bool(np.max(np.abs(v2 - ref) / (1 + np.abs(ref))) <= 1e-10)
+                first = [0] + [k + 1 for k in keep[:-1]]          # first row of every cluster of indistinguishable stamps
+                ok = v2.shape == exp[keep, 1:].shape
+                for j in range(len(keep)):
+                    if not ok:
+                        break
+                    close = [bool(np.max(np.abs(v2[j] - exp[m_, 1:]) / (1 + np.abs(exp[m_, 1:]))) <= 1e-10) for m_ in range(first[j], keep[j] + 1)]
+                    ok = any(close)
             out["replay_ok"] = bool(ok)
         except Exception as ex:
             out["replay_ok"] = False
